@@ -1,0 +1,7 @@
+//go:build !verif
+
+package diff
+
+// Verification hooks (see /verif/MANIFEST.json "hooks"); no-ops unless built with -tags verif.
+
+func verifCountEquivalence() {}
